@@ -32,7 +32,7 @@ def shards(tier):
 
 
 def required_counters(tier):
-    return {'judged:pair': 1000, 'judged:triple': 1000, 'judged:slices': 1000, 'judged:from_float': 500,
+    return {'judged:independent': 200, 'judged:pair': 1000, 'judged:triple': 1000, 'judged:slices': 1000, 'judged:from_float': 500,
             'judged:scalars': 100}
 
 
@@ -189,6 +189,32 @@ def judge_slices(obs, BB, b, B, shape):
               f'box {b} image {shape}: slices {sl!r}, {ss!r}; expected {exp_large}, {exp_small}', 'slices')
 
 
+def judge_independent(obs, a, b, A, B):
+    """results are new objects holding Python ints; editing a result leaves the operands alone; slices index arrays."""
+    for name, res in (('union', A | B), ('intersection', A & B)):
+        if res is None:
+            continue
+        ok_t = all(type(getattr(res, k)) is int for k in ('ixmin', 'ixmax', 'iymin', 'iymax'))
+        obs.check(ok_t, 'corner-not-a-python-int', f'{name} of {a} and {b} stores corners of types {[type(getattr(res, k)).__name__ for k in ("ixmin", "ixmax", "iymin", "iymax")]}', 'independent')
+        obs.check(res is not A and res is not B, 'result-is-an-operand', f'{name} of {a} and {b} returned one of its operands (editing the result would edit the operand)', 'independent')
+        res.ixmin -= 3
+        res.iymax += 2
+        obs.check(as_tuple(A) == a and as_tuple(B) == b, 'editing-result-changes-operand', f'editing the {name} of {a} and {b} changed an operand', 'independent')
+    ok_t = all(type(getattr(A, k)) is int for k in ('ixmin', 'ixmax', 'iymin', 'iymax'))
+    obs.check(ok_t, 'corner-not-a-python-int', f'box {a} stores corners of types {[type(getattr(A, k)).__name__ for k in ("ixmin", "ixmax", "iymin", "iymax")]}', 'independent')
+    ny, nx = max(a[3], 1) + 2, max(a[1], 1) + 2
+    if 0 < ny * nx < 10 ** 6:
+        sl, ss = A.get_overlap_slices((ny, nx))
+        if sl is not None:
+            img = np.zeros((ny, nx))
+            try:
+                sub = img[sl]
+                small = np.zeros(A.shape)[ss]
+                obs.check(sub.shape == small.shape, 'overlap-windows-differ', f'box {a}: windows {sub.shape} vs {small.shape}', 'independent')
+            except Exception as exc:
+                obs.violation('overlap-slices-unusable', f'box {a}: slices {sl!r} cannot index an array: {type(exc).__name__}: {exc}')
+
+
 def judge_scalars(obs, b, B):
     ny, nx = b[3] - b[2], b[1] - b[0]
     obs.check(tuple(B.shape) == (ny, nx), 'shape-wrong', f'{b}.shape = {B.shape}', 'scalars')
@@ -275,6 +301,12 @@ def run_case(case, obs):
             x = sorted(int(v) for v in nrng.integers(lo, m + 1, 2))
             y = sorted(int(v) for v in nrng.integers(lo, m + 1, 2))
             tup = (x[0], x[1], y[0], y[1])
+            if nrng.random() < 0.3 and min(tup) >= 0:
+                # every corner in its own integer type (incl. unsigned 64-bit mixed with signed / Python ints)
+                mixed = [np.uint64, int, np.int32, np.int64, np.uintp] + ([np.uint16] if max(tup) < 60000 else [])
+                if max(tup) >= 2 ** 31:
+                    mixed.remove(np.int32)
+                return tup, BB(*[mixed[nrng.integers(len(mixed))](v) for v in tup])
             return tup, BB(*[t(v) for v in tup])
         if lane == 'random-large':
             for _ in range(20):
@@ -282,6 +314,7 @@ def run_case(case, obs):
                 (a, A), (b, B) = rbox(m), rbox(m)
                 judge_pair(obs, BB, a, b, A, B, False)
                 judge_scalars(obs, a, A)
+                judge_independent(obs, a, b, A, B)
         elif lane == 'random-triples':
             for _ in range(20):
                 m = 10 ** nrng.integers(0, 10)
